@@ -95,6 +95,7 @@ type World struct {
 	traceExecSeen bool
 	TraceStatFork bool // trace mode: os.Stat outcome is a symbolic boolean
 	WalkExtra []Value // trace mode: files visited by filepath.Walk
+	WalkExtraKind Value // kind of those files as Lstat sees it (nil/0 regular, 1 symlink, 2 named pipe, 3 socket); int64 or term
 	CmdExitFree bool  // vcmd exit status symbolic (default true)
 	CmdWriteFree bool // vcmd write outcomes symbolic (default true)
 	Tmpfiles int
